@@ -66,6 +66,8 @@ class Sched:
 
     def yield_point(self, label, blocked_until=None):
         name = real_threading.current_thread().name
+        if name not in self.batons:
+            return      # (the scheduler itself looking at a flag, e.g. through `running`: not a step of anybody)
         self.pending_label[name] = label
         self.state[name] = ('blocked', blocked_until) if blocked_until else 'ready'
         self._handback(name)
